@@ -52,12 +52,34 @@ def seed_docs(hs, A, tier, rng):
         for kind, v in sorted(only3.items()):
             docs.append([[18, absval.cps(ver), [], [[absval.cps('a'), []], [absval.cps('b'), []]], [[v, [7, absval.cps('x')]]]]])
             names.append('only3_%s_under_%s' % (kind, ver))
+    # ... and the same inside a NESTED grid labelled 2.0 (cell of a 3.0 document): a nested grid is a 3.0-only construct
+    # whatever its own label says, so a 2.0 grid can hold neither a 3.0 grid nor another 2.0 grid
+    only3n = dict(only3, grid2=[18, absval.cps('2.0'), [], [[absval.cps('x'), []]], [[one]]])
+    for kind, v in sorted(only3n.items()):
+        if tier == 'quick' and kind not in ('grid2', 'list', 'na'):
+            continue
+        inner = [18, absval.cps('2.0'), [], [[absval.cps('b'), []]], [[v]]]
+        docs.append([[18, absval.cps('3.0'), [], [[absval.cps('a'), []]], [[inner]]]])
+        names.append('only3_%s_in_nested_2.0' % kind)
     # a two-grid document
     g1 = G(version='2.0', columns=[('a', [])]); g1.extend([{'a': 1}])
     g2 = G(version='3.0', columns=[('b', [])]); g2.extend([{'b': [2]}])
     docs.append(A.doc([g1, g2])); names.append('two_grids')
     return docs, names
 
+
+SCALAR_LITERALS = [
+    '9999-12-31T23:59:59Z Auckland', '0001-01-01T00:00:00Z Los_Angeles', '9999-12-31T23:59:59.999999+14:00 Kiritimati',
+    '0001-01-01T00:00:00-12:00', '9999-12-31T23:59:59-11:00 Midway', '0001-01-01T00:00:00+13:00 Tongatapu',
+    '2020-01-01T00:00:00Z UTC', '2020-01-01T00:00:00 UTC', '2020-02-30T00:00:00Z UTC', '2020-01-01T24:00:00Z',
+    '2020-01-01T00:00:60Z UTC', '2021-03-14T02:30:00-05:00 New_York', '2021-11-07T01:30:00-04:00 New_York',
+    '2020-01-01T00:00:00+99:99', '2020-13-01', '0000-01-01', '10000-01-01', '24:00:00', '23:59:60', '12:30:00.1234567',
+    'C(91.0,181.0)', 'C(-90.0,-180.0)', 'C(1,2)', 'C(1.5,)', '1e400', '-1e400kW', '1e-400', '1e99999999999', '9' * 400,
+    '1_', '1__0', '_1', '1e', '1e+', '.5', '5.', '0x10', 'INF', '-INF', 'NaN', 'NaNkW', 'infinity',
+    'hex("zz")', 'hex("abc")', 'b64("@@@@")', 'b64("a")', 'Bin()', 'Bin("")', 'Bin(text/plain)', 'Bin("text/plain")',
+    '@', '@a b', '@a "d"', '@a "d', '"\\u12"', '"\\uD800"', '"\\q"', '`a\\`', '``', '[', '[1,', '[1,,2]', '{a:}', '{a b:1}',
+    '{A}', '<<', '<<>>', 'T', 'F', 'true', 'N', 'NA', 'M', 'R', 'Foo("x")', 'foo("x")', '9Foo("x")',
+]
 
 _W = {}
 
@@ -185,6 +207,16 @@ def run(tier):
             for _ in range(1500 if tier == 'quick' else 15000):
                 s = ''.join(rng.choice(ALPHA) for _ in range(rng.randint(0, 12)))
                 scal.append((len(scal) + 1, [ord(c) for c in s], rng.choice(['2.0', '3.0', '2.5'])))
+            # well-formed and nearly well-formed scalar literals: boundary values of every kind and each of their
+            # single-character deletions (a date-time at the end of the calendar with a zone name, a zone name without
+            # offset, undecodable hex / base64 payloads, exponents beyond the double range ...)
+            for lit in SCALAR_LITERALS:
+                cands = [lit] + [lit[:i] + lit[i + 1:] for i in range(len(lit))]
+                if tier == 'quick':
+                    cands = [lit] + rng.sample(cands[1:], min(8, len(cands) - 1))
+                for s_ in cands:
+                    for ver in ('2.0', '3.0'):
+                        scal.append((len(scal) + 1, [ord(c) for c in s_], ver))
             souts = dict(pool.map(_scalar_outcome, scal, chunksize=100))
         for c in cases:
             o = outs[c['id']]
